@@ -1,5 +1,6 @@
 (* Runs the extracted model (Model) on a case file; same protocol as the Rust harness.
    Only glue lives here: integer and UTF-8 conversion, case-file framing. *)
+type ostr = string
 open Model
 
 let rec pos_of_int n = if n = 1 then XH else if n land 1 = 1 then XI (pos_of_int (n lsr 1)) else XO (pos_of_int (n lsr 1))
@@ -67,8 +68,95 @@ let text_of escape zs =
     else add_utf8 b c) zs;
   Buffer.contents b
 
+(* ---- parsing the harness's dump format into model values (stage-local operations) ---- *)
+exception Unrep of ostr
+let zint s = match int_of_string_opt s with Some n -> z_of_int n | None -> raise (Unrep s)
+let pt x y = { px = zint x; py = zint y }
+let bool_of s = (s = "1")
+let marker_of = function
+  | "-" -> None | "arrow" -> Some MArrow | "clear_arrow" -> Some MClearArrow | "circle" -> Some MCircle
+  | "square" -> Some MSquare | "diamond" -> Some MDiamond | "open_circle" -> Some MOpenCircle
+  | "big_open_circle" -> Some MBigOpenCircle | s -> raise (Unrep s)
+let ptag_of = function
+  | "ArrowTopLeft" -> ArrowTopLeft | "ArrowTop" -> ArrowTop | "ArrowTopRight" -> ArrowTopRight
+  | "ArrowLeft" -> ArrowLeft | "ArrowRight" -> ArrowRight | "ArrowBottomLeft" -> ArrowBottomLeft
+  | "ArrowBottom" -> ArrowBottom | "ArrowBottomRight" -> ArrowBottomRight | "DiamondBullet" -> DiamondBullet
+  | s -> raise (Unrep s)
+let fragment_of (s : ostr) : fragment =
+  let s = (match String.index_opt s '@' with Some i -> String.sub s 0 i | None -> s) in
+  let i = (try String.index s '(' with Not_found -> raise (Unrep s)) in
+  let kind = String.sub s 0 i and body = String.sub s (i + 1) (String.length s - i - 2) in
+  let f = split_on ',' body in
+  match kind, f with
+  | "L", [a; b; c; d; e] -> FLine { lstart = pt a b; lend = pt c d; lbroken = bool_of e }
+  | "ML", [a; b; c; d; e; m1; m2] ->
+    FMarkerLine { mlline = { lstart = pt a b; lend = pt c d; lbroken = bool_of e }; mlstart = marker_of m1; mlend = marker_of m2 }
+  | "C", [a; b; r; fl] -> FCircle { ccenter = pt a b; cradius = zint r; cfilled = bool_of fl }
+  | "A", [a; b; c; d; r; mj; sw] -> FArc { astart = pt a b; aend = pt c d; aradius = zint r; amajor = bool_of mj; asweep = bool_of sw }
+  | "R", [a; b; c; d; fl; r; br] ->
+    FRect { rstart = pt a b; rend = pt c d; rfilled = bool_of fl; rradius = (if r = "-" then None else Some (zint r)); rbroken = bool_of br }
+  | "CT", [x; y; content] -> FCellText { ctstart = { cx = zint x; cy = zint y }; ctcontent = scalars '.' content }
+  | "CT", [x; y] -> FCellText { ctstart = { cx = zint x; cy = zint y }; ctcontent = [] }
+  | "P", _ ->
+    (match split_on ';' body with
+     | fl :: rest ->
+       let n = List.length rest in
+       let pts = List.filteri (fun k _ -> k < n - 1) rest and tags = List.nth rest (n - 1) in
+       FPolygon { ppoints = List.map (fun p -> match split_on ',' p with [x; y] -> pt x y | _ -> raise (Unrep p)) pts;
+                  pfilled = bool_of fl;
+                  ptags = List.filter_map (fun t -> if t = "" then None else Some (ptag_of t)) (split_on ',' tags) }
+     | [] -> raise (Unrep s))
+  | _ -> raise (Unrep s)
+let words s = List.filter (fun t -> t <> "") (split_on ' ' s)
+let cellchar_of s = match split_on ',' s with
+  | [x; y; c] -> ({ cx = zint x; cy = zint y }, zint c) | _ -> raise (Unrep s)
+let cells_of s = List.filter_map (fun t -> if t = "" then None else Some (cellchar_of t)) (split_on ';' s)
+let celltext_of s = match split_on ',' s with
+  | [x; y; c] -> ({ cx = zint x; cy = zint y }, scalars '.' c)
+  | [x; y] -> ({ cx = zint x; cy = zint y }, [])
+  | _ -> raise (Unrep s)
+(* sections are separated by " | " *)
+let sections s =
+  let rec go acc cur i =
+    if i >= String.length s then List.rev (Buffer.contents cur :: acc)
+    else if i + 2 < String.length s && s.[i] = ' ' && s.[i+1] = '|' && s.[i+2] = ' ' then
+      (let c = Buffer.contents cur in Buffer.clear cur; go (c :: acc) cur (i + 3))
+    else (Buffer.add_char cur s.[i]; go acc cur (i + 1)) in
+  go [] (Buffer.create 256) 0
+let after_tag tg s =
+  let n = String.length tg in
+  if String.length s >= n && String.sub s 0 n = tg then Some (String.trim (String.sub s n (String.length s - n))) else None
+
+let run_stage id op spec text =
+  let (st, w, h) = settings_of spec in
+  match op with
+  | "endorse" | "endorsespan" -> text_of false (op_endorse (op = "endorsespan") (cells_of (String.trim text)))
+  | _ ->
+    (* emit:<entry> *)
+    let entry = (match op with "emit:to_svg" -> 0 | "emit:pretty" -> 1 | "emit:compressed" -> 2 | "emit:settings" -> 3
+                              | "emit:override" -> 4 | _ -> failwith ("unknown op " ^ op)) in
+    let acc = ref [] and groups = ref [] and esc = ref [] and legend = ref [] and br = ref { cx = Z0; cy = Z0 } in
+    List.iter (fun sec ->
+      let sec = String.trim sec in
+      if sec = "A" then () else
+      match after_tag "A " sec with Some r -> acc := List.map fragment_of (words r) | None ->
+      if sec = "G" then groups := [] :: !groups else
+      match after_tag "G " sec with Some r -> groups := List.map fragment_of (words r) :: !groups | None ->
+      if sec = "E" then () else
+      match after_tag "E " sec with Some r -> esc := List.filter_map (fun t -> if t = "" then None else Some (celltext_of t)) (split_on ';' r) | None ->
+      if sec = "L" then () else
+      match after_tag "L " sec with Some r -> legend := scalars '.' r | None ->
+      match after_tag "B " sec with Some r -> (match split_on ',' r with [x; y] -> br := { cx = zint x; cy = zint y } | _ -> raise (Unrep r)) | None ->
+      raise (Unrep sec)) (sections text);
+    let out = op_emit (z_of_int entry) st w h !acc (List.rev !groups) !esc !legend !br in
+    let is_err = (match out with Zpos _ :: _ -> (text_of false (List.filteri (fun i _ -> i < 4) out) = "ERR ") | _ -> false) in
+    if is_err then text_of false out else "S " ^ text_of true out
+
 let run_line line =
   match split_on '\t' line with
+  | id :: op :: spec :: rest when (String.length op >= 5 && (String.sub op 0 5 = "emit:" || String.sub op 0 5 = "endor")) ->
+    let input = scalars ' ' (String.concat "\t" rest) in
+    (try id ^ "\t" ^ run_stage id op spec (text_of false input) with Unrep s -> id ^ "\tUNREP " ^ s)
   | id :: op :: spec :: rest ->
     let input = scalars ' ' (String.concat "\t" rest) in
     let (st, w, h) = settings_of spec in
